@@ -17,6 +17,7 @@ mod scen_console;
 mod scen_layout;
 mod scen_life;
 mod scen_mmio;
+mod scen_net;
 mod scen_pci;
 mod scen_vq;
 mod zoo;
@@ -123,6 +124,7 @@ fn main() {
         "cfg" => family_cfg(&args),
         "pci" => family_pci(&args),
         "console" => family_generic(&args, "console", |a| scen_console::all_params(a.tier == "thorough", a.seed), |v| scen_console::ConParams::from_json(v), |p| p.to_json(), |p, sc| scen_console::run(p, sc)),
+        "net" => family_generic(&args, "net", |a| scen_net::all_params(a.tier == "thorough", a.seed), |v| scen_net::NetParams::from_json(v), |p| p.to_json(), |p, sc| scen_net::run(p, sc)),
         "blk" => family_generic(&args, "blk", |a| scen_blk::all_params(a.tier == "thorough", a.seed), |v| scen_blk::BlkParams::from_json(v), |p| p.to_json(), |p, sc| scen_blk::run(p, sc)),
         f => {
             eprintln!("unknown family {f}");
